@@ -87,6 +87,8 @@ class ModuleInstance(abc.ABC):
     def memory_grow(self, memory_idx: int, amount: int) -> int:
         """Grow memory and return the old size"""
         memory = self._memories[memory_idx]
+        # The page count operand is an unsigned 32 bit value:
+        amount &= 0xFFFFFFFF
         return memory.grow(amount)
 
     def memory_size(self, memory_idx: int) -> int:
